@@ -733,7 +733,7 @@ int sim_main(int argc, char **argv) {
             ctx_clear();
             scrub_stack();
             Outcome o;
-            unsigned cold = e->cold_start_every();
+            unsigned cold = getenv("SIM_NO_COLD") ? 0 : e->cold_start_every();
             if (cold && idx % cold == cold - 1) {
                 GuardedResult gr = guarded_execute(*e, p);
                 o = gr.out;
